@@ -106,6 +106,24 @@ def elements(I, s, it):
     return N, K, [(s2, x) for s2, x in I.loops.elem_of(s1, it.seq, it.pos + K, None)]
 
 
+def unknown_must_accept(F, res, dd):
+    """every rejecting path of the unknown-packet parser is infeasible on a well-framed packet (>= 4 bytes, version 2, length
+    field = length), whatever its type, count and padding bit — shared with C19 (raw third-party packets must be accepted)"""
+    I = Interp(F)
+    inp = input_slice()
+    H = Header(inp)
+    n_wf = 0
+    for s, k, v in I.run(dd, [inp]):
+        if k == "val" and isinstance(v, StructV) and v.variant == "Err":
+            n_wf += 1
+            wf = [flit(ge(H.len, UNKNOWN_MIN)), H.version_is(VERSION), flit(eq(H.length_field_bytes(), H.len))]
+            feas = any(solver.feasible(s.pc, conj) for conj in dnf(f_and(*wf)))
+            res.ob(not feas, "must-accept", dd, "a well-framed packet of unknown type is never rejected", pc=s.pc)
+    for sp, fn, what in I.unmodelled:
+        res.unmodelled(fn, what, sp)
+    return n_wf
+
+
 def run(ctx, res):
     F = ctx.F
     D = Disc(F)
@@ -234,15 +252,7 @@ def run(ctx, res):
                     n_wf += 1
                     res.ob(not solver.feasible(s.pc, [eq(inp.length(), REPORT_BLOCK_SIZE)]), "must-accept", dd, "a 24-byte report block is never rejected", pc=s.pc)
         if name == "Unknown":
-            I = Interp(F)
-            inp = input_slice()
-            H = Header(inp)
-            for s, k, v in I.run(dd, [inp]):
-                if k == "val" and isinstance(v, StructV) and v.variant == "Err":
-                    n_wf += 1
-                    wf = [flit(ge(H.len, UNKNOWN_MIN)), H.version_is(VERSION), flit(eq(H.length_field_bytes(), H.len))]
-                    feas = any(solver.feasible(s.pc, conj) for conj in dnf(f_and(*wf)))
-                    res.ob(not feas, "must-accept", dd, "a well-framed packet of unknown type is never rejected", pc=s.pc)
+            n_wf += unknown_must_accept(F, res, dd)
     res.floor("fixed-layout packet parsers compared with the RFC table", typed, 6)
     res.floor("accessor results compared", n[0], 70)
     res.floor("reject paths refuted for well-formed input", n_wf, 40)
